@@ -145,17 +145,17 @@ type repType struct {
 
 // The hprose lanes: 12 representative types of the C01 universe.
 var hproseReps = []repType{
-	{tInt, []int{0, 8, 4}, []int{1, 11}},            // -1, MaxInt32+1, 10 | 0, MinInt64
-	{tInt64, []int{8, 9, 0}, []int{6, 1}},           // MaxInt64, MinInt64, -1 | MaxInt32+1, 0
-	{tUint64, []int{7, 0, 5}, []int{6, 4}},          // MaxUint64, 1, MaxInt64 | MaxInt64+1, MaxInt32+1
-	{tFloat64, []int{0, 5, 14}, []int{2, 9, 12}},    // 1.5, 0.1, NaN | -0, MaxFloat64, +Inf
+	{tInt, []int{0, 8, 4}, []int{11}},               // -1, MaxInt32+1, 10 | MinInt64
+	{tInt64, []int{8, 9, 0}, []int{6}},              // MaxInt64, MinInt64, -1 | MaxInt32+1
+	{tUint64, []int{7, 0, 5}, []int{6}},             // MaxUint64, 1, MaxInt64 | MaxInt64+1
+	{tFloat64, []int{0, 5, 14}, []int{2, 12}},       // 1.5, 0.1, NaN | -0, +Inf
 	{tString, []int{0, 1, 5}, []int{4, 9, 2, 7}},    // "ab", "", astral | "你好", quoted, "a", "\xff"
-	{tBytes, []int{0, 1, 4}, []int{2, 5}},           // {1,2,255}, nil, "\"};" | {}, "hello world"
-	{tInts, []int{6, 0, 2}, []int{1, 5}},            // {-1,0,1}, nil, {-1} | {}, {0,-1}
-	{tMapSI, []int{5, 0, 2}, []int{1, 3}},           // 5 entries, nil, {"ab":-1} | {}, {"":0}
+	{tBytes, []int{0, 1, 4}, []int{2}},              // {1,2,255}, nil, "\"};" | {}
+	{tInts, []int{6, 0, 2}, []int{1}},               // {-1,0,1}, nil, {-1} | {}
+	{tMapSI, []int{5, 0, 2}, []int{1}},              // 5 entries, nil, {"ab":-1} | {}
 	{tInner, []int{3, 0, 1}, []int{2}},              // {1,"ab"}, zero, {-1,""} | {0,"a"}
-	{tPInner, []int{4, 0, 2}, []int{1, 3}},          // &{1,"ab"}, nil, &{-1,""} | &zero, &{0,"a"}
-	{tTime, []int{0, 1, 9}, []int{2, 11, 15, 5}},    // UTC, local, ms UTC | zero, ns, UTC+8, time-only
+	{tPInner, []int{4, 0, 2}, []int{1}},             // &{1,"ab"}, nil, &{-1,""} | &zero
+	{tTime, []int{0, 1, 9}, []int{2, 11, 15}},       // UTC, local, ms UTC | zero, ns, UTC+8
 	{tIface, []int{1, 4, 16}, []int{19, 26, 18, 7}}, // nil, true, [1,"ab",nil] | map, &Inner, ["ab","ab"], MaxInt64
 }
 
